@@ -459,7 +459,7 @@ fn main() {
     eng.rule(
         "csi_table: 63 finals x 8 intermediates x parameter lists over {0,1,size,2^16,10^6,2^31-1} (all lists of length <=2; lengths 3..6 with exactly one large position, others 1 or size) x 3 screen \
          prefixes (empty, full+scrollback+margins, printable just written); other_streams: macro recursion/repeat/fan-out, sixel raster/repeat/colour registers, OSC, music, custom-font DCS payloads, Avatar/Ctrl-A \
-         repeats; files: golden xb/adf/idf/tnd/bin/psf/tdf files with 1-4 header or tail bytes set to extremes; icy_record_fields: every byte offset 0..96 of every zTXt record of a golden IcyDraw file overwritten with 1-4 byte extremes; psf2_headers: all combinations of extreme PSF2 header fields; csi_pairs: state-setting sequences carrying 2^16 / 10^6 / 2^31-1 (margins, scroll regions, single-edge margin updates, origin mode, far tab stop, far cursor), alone and on a screen that already has a left/right or four-parameter region, each followed by every control function (63 finals x 8 intermediates x {no parameter, 1, 25}) and by line feeds / a long printable run / index and reverse index; random_numbers: generated CSI/DCS sequences with random magnitudes. Each input runs in a \
+         repeats; files: golden xb/adf/idf/tnd/bin/psf/tdf files with 1-4 header or tail bytes set to extremes; icy_record_fields: every byte offset 0..96 of every zTXt record of a golden IcyDraw file overwritten with 1-4 byte extremes; psf2_headers: all combinations of extreme PSF2 header fields; csi_pairs: state-setting sequences carrying 2^16 / 10^6 / 2^31-1 (margins, scroll regions, single-edge margin updates, origin mode, far tab stop, far cursor), alone and on a screen that already has a left/right or four-parameter region, each followed by every control function (63 finals x 8 intermediates x {no parameter, 1, 25}) and by line feeds / a long printable run / index and reverse index; stored_numbers: 18 sequences that store 10^6 / 2^31-1 (macro id, font slot, tab stop, saved cursor, palette index, hyperlink id) each followed by every control function with every selector 0..=99 (alone and as `sel;1`); random_numbers: generated CSI/DCS sequences with random magnitudes. Each input runs in a \
          worker: CPU (all threads) <= max(0.5 s, 50 x CPU of the same template at screen size), peak heap <= 256 MiB, no abort, no answer within 6 s = hang. Non-trivial: the case ran to completion \
          under measurement (not ended by a panic); distinct by case hash.",
     );
@@ -584,6 +584,51 @@ fn main() {
             base.extend_from_slice(&action);
             let mut c = Case { family: format!("pair|{name}"), prefix: (i % 2) as u8, emu: 0, large: Bytes(large), base: Bytes(base), ext: String::new(), skip: false };
             c.skip = st6(&c.family);
+            c
+        },
+        check,
+        classify,
+    );
+
+    // numbers that an earlier sequence STORED (a macro id, a font slot, a tab stop, a saved cursor, a palette index, a hyperlink id)
+    // must not become the loop bound of a later report / selection / reset: every control function with every selector 0..=99
+    // (alone and as `sel;1`) after each storing sequence
+    let storers: Vec<(&'static str, String)> = {
+        let mut v = Vec::new();
+        for n in [1_000_000u32, i32::MAX as u32] {
+            v.push(("macro_id", format!("\x1bP{n};0;0!zx\x1b\\")));
+            v.push(("macro_id_hex", format!("\x1bP{n};0;1!z41\x1b\\")));
+            v.push(("font_slot_selected", format!("\x1b[0;{n} D")));
+            v.push(("font_slot_selected_1", format!("\x1b[1;{n} D")));
+            v.push(("tab_stop_far", format!("\x1b[{n}G\x1bH\x1b[1G")));
+            v.push(("saved_cursor_far", format!("\x1b[{n};{n}H\x1b[s\x1b7\x1b[H")));
+            v.push(("palette_index", format!("\x1b]4;{n};rgb:11/22/33\x1b\\")));
+            v.push(("hyperlink_id", format!("\x1b]8;id={n};http://x\x1b\\")));
+            v.push(("macro_invoke_unknown", format!("\x1b[{n}*z")));
+        }
+        v
+    };
+    let n_st = storers.len() as u64;
+    let st7 = steered.clone();
+    eng.enumerated_with_class(
+        PartCfg::new("stored_numbers", 0, 0).isolated().timeout_ms(6_000).hang_is_violation(true).heap_cap(2 << 30).exhaustive(true),
+        n_st * 63 * 8 * 200,
+        move |i| {
+            let si = (i % n_st) as usize;
+            let r = i / n_st;
+            let sel = (r % 100) as u32;
+            let with_second = (r / 100) % 2 == 1;
+            let inter = INTERS[((r / 200) % 8) as usize];
+            let fin = 0x40 + (r / 1600) as u8;
+            let ps: Vec<u32> = if with_second { vec![sel, 1] } else { vec![sel] };
+            let action = render_csi(inter, fin, &ps, |_| H as u32, false);
+            let (name, setter) = &storers[si];
+            let mut large = setter.clone().into_bytes();
+            large.extend_from_slice(&action);
+            let mut base = setter.replace("1000000", "25").replace("2147483647", "25").into_bytes();
+            base.extend_from_slice(&action);
+            let mut c = Case { family: format!("stored|{name}"), prefix: 0, emu: 0, large: Bytes(large), base: Bytes(base), ext: String::new(), skip: false };
+            c.skip = st7(&c.family);
             c
         },
         check,
